@@ -36,13 +36,14 @@ def run(chk):
     thorough = chk.tier == "thorough"
     s = G.Session(chk)
     if thorough:
-        s.job("fresh: CR registration", "fresh", G.CR_KINDS, 6, emit="all", limit=2000, rolls=2)
-        s.job("voting: first election", "voting", G.CR_KINDS, 5, emit="all", limit=4000, rolls=2, rolldepth=4)
+        s.job("fresh: CR registration", "fresh", G.CR_KINDS, 6, emit="all", limit=1500, rolls=2)
+        s.job("voting: first election", "voting", G.CR_KINDS, 5, emit="all", limit=2500, rolls=2, rolldepth=4)
         s.job("duty: proposals and impeachment", "duty", ["Proposal", "Review", "Reject", "Impeach", "Withdraw"], 3, emit="all",
-              limit=3000, rolls=1)
+              limit=2000, rolls=1)
         s.job("agreed: tracking, withdrawal, close", "agreed", ["Tracking", "Withdraw", "RealWithdraw", "Close", "Impeach"], 3,
-              emit="all", limit=3000, rolls=1)
-        s.job("election: second election", "election", G.CR_KINDS + ["Impeach"], 3, emit="all", limit=3000, rolls=1)
+              emit="all", limit=2000, rolls=1)
+        s.job("election: second election", "election", ["RegisterCR", "UnregisterCR", "VoteCR", "Claim", "Impeach", "ReturnDeposit"], 3,
+              emit="all", limit=2000, rolls=1)
         s.job("simulation duty, 30 steps", "duty", ALL, 30, emit="last", simulate="num=300", rolls=3, timeout=1700)
         s.job("simulation election, 30 steps", "election", ALL, 30, emit="last", simulate="num=300", rolls=3, timeout=1700)
         s.job("simulation voting, 30 steps", "voting", ALL, 30, emit="last", simulate="num=300", rolls=3, timeout=1700)
